@@ -7,7 +7,7 @@
    This file contains only theorems (closed by `exact <lemma>`), examples and refutation witnesses. *)
 From Coq Require Import String List Arith Bool ZArith.
 Import ListNotations.
-Require Import TL.Model.Binding TL.Proofs.BindingLemmas TL.Model.BindingShell TL.Proofs.BindingShellLemmas.
+Require Import TL.Model.Binding TL.Model.BindingEq TL.Proofs.BindingLemmas TL.Model.BindingShell TL.Proofs.BindingShellLemmas.
 
 Section Statements.
 Variables (val E : Type) (type_error : E) (um : nat -> val -> val + E) (key_val : nat -> val) (R : Type).
@@ -193,6 +193,27 @@ Theorem C10S_wrap_order_own_init : forall B S f g, B <> S ->
   resolve_init 2 (wrap_classes 2 Ev order) B = Some (FWrap f).
 Proof. exact wrap_order_own_init. Qed.
 
+(* _get_binding memoises per callable (compat.cache).  For ANY history of bind / wrap calls with no cache clearing in
+   between, every callable gets the binding built from ITS OWN signature -- provided two callables that share a slot
+   have the same signature (true of a table keyed by the callable itself; FALSE of one keyed by a bound method's
+   __func__: `inst.m` has no self in its signature, `Cls.m` has) *)
+Theorem C10S_cache_own_binding : forall (obj key B : Type) (key_eqb : key -> key -> bool) (key_of : obj -> key)
+    (sig_of : obj -> sig) (build : sig -> B),
+  (forall a b, key_eqb (key_of a) (key_of b) = true -> sig_of a = sig_of b) ->
+  forall h o, binding_after obj key B key_eqb key_of sig_of build h o = build (sig_of o).
+Proof. exact binding_after_own. Qed.
+(* necessity of the slot condition: def m(self, a: T1): 0 = Cls.m, 1 = inst.m, one shared slot; whichever is bound
+   first fixes the table of both *)
+Definition m_func : sig := [ {| pname := 998; pkind := PK; pann := false |}; {| pname := 1; pkind := PK; pann := true |} ].
+Definition m_bound : sig := [ {| pname := 1; pkind := PK; pann := true |} ].
+Example C10S_cache_shared_slot_refuted :
+  let sig_of := fun o : nat => if Nat.eqb o 0 then m_func else m_bound in
+  binding_after nat nat bstate Nat.eqb (fun _ => 0) sig_of get_binding [0] 1 = get_binding m_func /\
+  binding_after nat nat bstate Nat.eqb (fun _ => 0) sig_of get_binding [1] 0 = get_binding m_bound /\
+  bstate_eqb (get_binding m_func) (get_binding m_bound) = false /\
+  binding_after nat nat bstate Nat.eqb (fun o => o) sig_of get_binding [0] 1 = get_binding m_bound.
+Proof. vm_compute. repeat split. Qed.
+
 (* functools.wraps: every metadata field the wrapped object has is on the wrapper, __wrapped__ is the
    wrapped object; a field it does not have (callable instances: __name__, __qualname__) stays the wrapper's *)
 Theorem C10S_wraps_meta : forall src_id src own,
@@ -339,6 +360,7 @@ Print Assumptions C10S_wrap_class_adds_layer.
 Print Assumptions C10S_wrap_class_other.
 Print Assumptions C10S_wrap_order_inherited.
 Print Assumptions C10S_wrap_order_own_init.
+Print Assumptions C10S_cache_own_binding.
 Print Assumptions C10S_wraps_meta.
 Print Assumptions C10S_wraps_dict.
 Print Assumptions C10S_pinned_is_shell.
